@@ -460,7 +460,7 @@ func c03Reference(op string, l, r c03Type) (accept, ok bool) {
 
 // genCheckerPointer: `#` is typed by the innermost collection (contract of checker.visitor.PointerNode).
 func genCheckerPointer(w *World, res *CheckResult) {
-	for _, n := range []string{"checker.visitor.PointerNode", "checker.indexType", "checker.visitor.checkFunc", "checker.visitor.BuiltinNode", "checker.fieldType", "checker.Check", "conf.FieldsFromStruct"} {
+	for _, n := range []string{"checker.visitor.PointerNode", "checker.indexType", "checker.visitor.checkFunc", "checker.visitor.BuiltinNode", "checker.fieldType", "checker.Check", "conf.FieldsFromStruct", "checker.dereference"} {
 		f2, ct := w.Func(n), w.Contracts[n]
 		if f2 == nil || ct == nil {
 			res.Obls = append(res.Obls, missingObl(n+"/exists", "function or contract missing"))
